@@ -7,7 +7,7 @@ func C06(run *core.Run) {
 	run.Assume = []string{
 		"store half: VStore.tla (PopExact, PatchesMatch, FreshViewRight after Pop) checked exhaustively and replayed by C07; node half: every Sync.tla behaviour ends with the comparison against a node that only ever saw the adopted chain",
 		"historical views are requested for every element before every delivery (warm caches), fork depths 1..3 abstract = 15..45 real momentums",
-		"consensus statistics are compared through GetMomentumProducer of the next slots",
+		"consensus statistics are compared through GetMomentumProducer of the next slots and through the per-epoch statistics, weights and delegations a node serves",
 	}
 	vsModelCheck(run, 3, 1, "abcde")
 	every := int64(40)
@@ -17,5 +17,8 @@ func C06(run *core.Run) {
 	syncCheck(run, 4, 15, 2, every, syncOpts{label: "pass1(unit 15) ", warmViews: true})
 	// a second pass with single-momentum elements: fork depth exactly 1, 2, 3 real momentums
 	syncCheck(run, 4, 1, 30, every, syncOpts{label: "pass2(unit 1, local dependent block) ", warmViews: true, local: true})
+	// a third pass with two silent election periods before every element: rollbacks end inside ticks and epochs that had been
+	// finished on the abandoned branch (F24), branches elect from different proof momentums
+	syncCheck(run, 4, 1, 30, every, syncOpts{label: "pass3(two election periods between elements) ", gap: 61})
 	run.Finish()
 }
